@@ -447,6 +447,8 @@ BREAKING = [
      '("table-cell", "covered-table-cell")', '("table-cell",)', ["C15"]),
     ("readers: only UnicodeDecodeError converted", "cutplace/rowio.py",
      "        except (csv.Error, UnicodeError) as error:", "        except (csv.Error, UnicodeDecodeError) as error:", ["C10"]),
+    ("tokens: a lone surrogate (UnicodeEncodeError) not converted", "cutplace/_tools.py",
+     "    except (SyntaxError, UnicodeError) as error:", "    except (SyntaxError, UnicodeDecodeError) as error:", ["C10"]),
     ("DecimalRange: only NaN refused", "cutplace/ranges.py",
      "        if not value_as_decimal.is_finite():", "        if value_as_decimal.is_nan():", ["C02"]),
     ("__exit__: end checks replace the pending error", "cutplace/validio.py",
